@@ -8,11 +8,15 @@ use std::{
 
 use better_any::{Tid, TidAble};
 use mahf::{
-    components::{archive, boundary, initialization, mutation, recombination, replacement, selection, utils},
+    components::{
+        archive, boundary, initialization, mapping, mutation, recombination, replacement, selection,
+        swarm::pso::{InertiaWeight, ParticleVelocitiesUpdate},
+        utils,
+    },
     conditions::{common::PartialEqChecker, ChangeOf, Condition, EveryN, LessThanN, RandomChance},
     lens::{common::BestObjectiveValueLens, AnyLens, IdLens, Lens, ValueOf},
     logging::{extractor::EntryName, Logger},
-    state::common::{BestIndividual, Evaluations, Iterations},
+    state::common::{BestIndividual, Evaluations, Iterations, Progress},
     Component, Configuration, CustomState, ExecResult, Individual, Problem, State,
 };
 use proptest::prelude::*;
@@ -141,6 +145,15 @@ pub struct LogCase {
     pub best: Option<i32>,
 }
 
+/// `LogCase::best`: i32::MAX encodes a best individual whose objective value is +inf (an infeasible solution)
+fn best_value(b: i32) -> f64 {
+    if b == i32::MAX {
+        f64::INFINITY
+    } else {
+        b as f64
+    }
+}
+
 #[derive(Clone, Debug, PartialEq)]
 enum V {
     Null,
@@ -231,7 +244,7 @@ impl<'a> LogModel<'a> {
             Extr::Iterations => vec![(IT_NAME.into(), V::Int(self.iterations as i128))],
             Extr::Evaluations => vec![(EV_NAME.into(), self.case.evaluations.map_or(V::Null, |v| V::Int(v as i128)))],
             Extr::Common => vec![(EV_NAME.into(), self.case.evaluations.map_or(V::Null, |v| V::Int(v as i128))), (PR_NAME.into(), vf(self.progress))],
-            Extr::BestObjective => vec![("BestObjectiveValue".into(), self.case.best.map_or(V::Null, |b| vf(b as f64)))],
+            Extr::BestObjective => vec![("BestObjectiveValue".into(), self.case.best.map_or(V::Null, |b| vf(best_value(b))))],
             Extr::Missing => vec![("never-inserted".into(), V::Null)],
         }
     }
@@ -433,7 +446,7 @@ fn log_oracle(c: &LogCase, cl: &mut u64) -> Result<(), Failure> {
             }
             if let Some(b) = case.best {
                 let mut bi = BestIndividual::<RealP>::new();
-                bi.update(&Individual::new(vec![0.0], (b as f64).try_into().unwrap()));
+                bi.update(&Individual::new(vec![0.0], best_value(b).try_into().unwrap()));
                 state.insert(bi);
             }
             state.configure_log(|cfg| {
@@ -472,27 +485,32 @@ fn log_oracle(c: &LogCase, cl: &mut u64) -> Result<(), Failure> {
         }
         Err(p) => fail!("C15 logging run panics", "{at}: {p}"),
     };
-    // (i) the in-memory log, order preserving
+    // (i) the in-memory log, order preserving (read through serde_json, which writes non-finite floats as null)
+    let jsonify = |v: &V| match v {
+        V::F(bits) if !f64::from_bits(*bits).is_finite() => V::Null,
+        other => other.clone(),
+    };
+    let mj: Vec<Vec<(String, V)>> = m.steps.iter().map(|s| s.iter().map(|(n, v)| (n.clone(), jsonify(v))).collect()).collect();
     let log = state.log();
     let direct = serde_json::to_value(&*log).map_err(|e| Failure::new("C15 log not serialisable", format!("{at}: {e}")))?;
     let got: Vec<Vec<(String, V)>> = direct
         .as_array()
         .map(|steps| steps.iter().map(|s| s.as_array().map(|es| es.iter().map(|e| (e["name"].as_str().unwrap_or("?").to_string(), json_v(&e["value"]))).collect()).unwrap_or_default()).collect())
         .unwrap_or_default();
-    if got.len() != m.steps.len() || got.iter().zip(&m.steps).any(|(a, b)| a.len() != b.len() || a.iter().zip(b).any(|(x, y)| x.0 != y.0 || !same(&x.1, &y.1))) {
-        let k = got.iter().zip(&m.steps).position(|(a, b)| a.len() != b.len() || a.iter().zip(b).any(|(x, y)| x.0 != y.0 || !same(&x.1, &y.1))).unwrap_or(got.len().min(m.steps.len()));
-        let sig = if got.len() > m.steps.len() && got.iter().any(|s| s.is_empty() || s.iter().all(|e| e.0 == IT_NAME)) {
+    if got.len() != mj.len() || got.iter().zip(&mj).any(|(a, b)| a.len() != b.len() || a.iter().zip(b).any(|(x, y)| x.0 != y.0 || !same(&x.1, &y.1))) {
+        let k = got.iter().zip(&mj).position(|(a, b)| a.len() != b.len() || a.iter().zip(b).any(|(x, y)| x.0 != y.0 || !same(&x.1, &y.1))).unwrap_or(got.len().min(mj.len()));
+        let sig = if got.len() > mj.len() && got.iter().any(|s| s.is_empty() || s.iter().all(|e| e.0 == IT_NAME)) {
             "C15 a step was recorded although nothing fired"
-        } else if got.len() != m.steps.len() {
+        } else if got.len() != mj.len() {
             "C15 number of log steps"
-        } else if got[k].len() == m.steps[k].len() && got[k].iter().map(|e| &e.0).collect::<Vec<_>>() != m.steps[k].iter().map(|e| &e.0).collect::<Vec<_>>() {
+        } else if got[k].len() == mj[k].len() && got[k].iter().map(|e| &e.0).collect::<Vec<_>>() != mj[k].iter().map(|e| &e.0).collect::<Vec<_>>() {
             "C15 entry order / first-rule-wins / iteration entry position"
-        } else if got[k].len() != m.steps[k].len() {
+        } else if got[k].len() != mj[k].len() {
             "C15 number of entries in a step"
         } else {
             "C15 logged value differs from the state at that moment"
         };
-        fail!(sig, "{at}: step {k}: recorded {:?}, expected {:?} ({} steps recorded, {} expected)", got.get(k), m.steps.get(k), got.len(), m.steps.len());
+        fail!(sig, "{at}: step {k}: recorded {:?}, expected {:?} ({} steps recorded, {} expected)", got.get(k), mj.get(k), got.len(), mj.len());
     }
     let expected_maps: Vec<BTreeMap<String, V>> = m.steps.iter().map(|s| s.iter().cloned().collect()).collect();
     // (ii) JSON export
@@ -508,7 +526,8 @@ fn log_oracle(c: &LogCase, cl: &mut u64) -> Result<(), Failure> {
         .map(|a| a.iter().map(|s| s.as_object().map(|o| o.iter().map(|(k, v)| (k.parse::<usize>().ok().and_then(|i| jnames.get(i).cloned()).unwrap_or_else(|| format!("bad key {k}")), json_v(v))).collect()).unwrap_or_default()).collect())
         .unwrap_or_default();
     let maps_equal = |a: &Vec<BTreeMap<String, V>>, b: &Vec<BTreeMap<String, V>>| a.len() == b.len() && a.iter().zip(b).all(|(x, y)| x.len() == y.len() && x.iter().zip(y).all(|(p, q)| p.0 == q.0 && same(p.1, q.1)));
-    ensure_that!(maps_equal(&jsteps, &expected_maps), "C15 JSON export does not decode to the recorded steps", "{at}: decoded {jsteps:?}, expected {expected_maps:?} (name table {jnames:?})");
+    let expected_json_maps: Vec<BTreeMap<String, V>> = mj.iter().map(|s| s.iter().cloned().collect()).collect();
+    ensure_that!(maps_equal(&jsteps, &expected_json_maps), "C15 JSON export does not decode to the recorded steps", "{at}: decoded {jsteps:?}, expected {expected_maps:?} (name table {jnames:?})");
     // (iii) CBOR export
     let cpath = format!("{dir}/log.cbor");
     log.to_cbor(&cpath).map_err(|e| Failure::new("C15 to_cbor fails", format!("{at}: {e:#}")))?;
@@ -603,7 +622,7 @@ fn renumber_scripts(t: &mut Trig, next: &mut u16) {
 
 fn log_strategy() -> impl Strategy<Value = LogCase> {
     let extr = prop_oneof![6 => (0u8..5).prop_map(Extr::H), 2 => Just(Extr::Iterations), 1 => Just(Extr::Evaluations), 1 => Just(Extr::Common), 1 => Just(Extr::BestObjective), 1 => Just(Extr::Missing)];
-    (proptest::collection::vec((trig_strategy(), extr), 0..7), proptest::option::of((0u8..3, 0u8..7)), 0u8..5, 0u32..13, [any::<bool>(), any::<bool>(), any::<bool>(), any::<bool>(), any::<bool>()], proptest::option::of(0u32..100), proptest::option::of(-5i32..50))
+    (proptest::collection::vec((trig_strategy(), extr), 0..7), proptest::option::of((0u8..3, 0u8..7)), 0u8..5, 0u32..13, [any::<bool>(), any::<bool>(), any::<bool>(), any::<bool>(), any::<bool>()], proptest::option::of(0u32..100), proptest::option::of(prop_oneof![5 => -5i32..50, 1 => Just(i32::MAX)]))
         .prop_map(|(mut rules, change, structure, iters, present, evaluations, best)| {
             // at most one ChangeOf trigger (they share their `Previous` state by value type)
             if let (Some((k, pos)), false) = (change, rules.is_empty()) {
@@ -636,7 +655,7 @@ pub enum CNode {
     Scope(Vec<CNode>),
 }
 
-const N_CATALOGUE: u8 = 34;
+const N_CATALOGUE: u8 = 38;
 
 /// (expected struct name, numeric parameters that must appear in the serialisation, component)
 fn catalogue(i: u8, a: u8, b: u8) -> (&'static str, Vec<f64>, Box<dyn Component<RealP>>) {
@@ -676,7 +695,29 @@ fn catalogue(i: u8, a: u8, b: u8) -> (&'static str, Vec<f64>, Box<dyn Component<
         30 => ("KeepBetterAtIndex", vec![], replacement::KeepBetterAtIndex::new()),
         31 => ("ElitistArchiveUpdate", vec![n as f64], archive::ElitistArchiveUpdate::new(n as usize)),
         32 => ("RotatePopulations", vec![n as f64], utils::populations::RotatePopulations::new(n as usize)),
-        _ => ("Logger", vec![], Logger::new()),
+        33 => ("Logger", vec![], Logger::new()),
+        // components that are generic over lenses whose state type is generic itself: the type arguments are part of
+        // what the component does (which counter drives the schedule)
+        34 => ("Linear", vec![n as f64, p], mapping::Linear::new(n as f64, p, ValueOf::<Progress<ValueOf<Iterations>>>::new(), ValueOf::<InertiaWeight<ParticleVelocitiesUpdate>>::new())),
+        35 => ("Linear", vec![n as f64, p], mapping::Linear::new(n as f64, p, ValueOf::<Progress<ValueOf<Evaluations>>>::new(), ValueOf::<InertiaWeight<ParticleVelocitiesUpdate>>::new())),
+        36 => ("Polynomial", vec![n as f64, p, 2.0], mapping::Polynomial::new(n as f64, p, 2.0, ValueOf::<Progress<ValueOf<Iterations>>>::new(), ValueOf::<InertiaWeight<ParticleVelocitiesUpdate>>::new())),
+        _ => ("Polynomial", vec![n as f64, p, 2.0], mapping::Polynomial::new(n as f64, p, 2.0, ValueOf::<Progress<ValueOf<Evaluations>>>::new(), ValueOf::<InertiaWeight<ParticleVelocitiesUpdate>>::new())),
+    }
+}
+
+/// Type names that must be readable from the serialisation of catalogue component `i` (they select what it does).
+fn catalogue_strings(i: u8) -> &'static [&'static str] {
+    match i % N_CATALOGUE {
+        34 | 36 => &["Progress", "Iterations", "InertiaWeight"],
+        35 | 37 => &["Progress", "Evaluations", "InertiaWeight"],
+        _ => &[],
+    }
+}
+fn cond_strings(i: u8) -> &'static [&'static str] {
+    match i % 4 {
+        0 | 2 => &["Iterations"],
+        1 => &["Evaluations"],
+        _ => &[],
     }
 }
 
@@ -729,6 +770,10 @@ fn match_structure(nodes: &[CNode], s: &SNode, path: &str) -> Result<(), Failure
             let Some(cs) = cs else { fail!("C15 condition missing in the serialisation", "{here}") };
             ensure_that!(cs.name() == Some(name), "C15 condition serialised under a different name", "{here}: expected {name}, got {:?}", cs.name());
             ensure_that!(has_nums(cs, &params), "C15 condition parameter missing in the serialisation", "{here}: {name} with parameters {params:?} serialised as {cs:?}");
+            let text = format!("{cs:?}");
+            for w in cond_strings(ci) {
+                ensure_that!(text.contains(w), "C15 lens type missing in the serialisation", "{here}: condition {name} reads `{w}` but its serialisation does not say so: {text}");
+            }
             Ok(())
         };
         match n {
@@ -736,6 +781,10 @@ fn match_structure(nodes: &[CNode], s: &SNode, path: &str) -> Result<(), Failure
                 let (name, params, _) = catalogue(*i, *x, *y);
                 ensure_that!(c.name() == Some(name), "C15 component serialised under a different name", "{here}: expected {name}, got {c:?}");
                 ensure_that!(has_nums(c, &params), "C15 component parameter missing in the serialisation", "{here}: {name} with parameters {params:?} serialised as {c:?}");
+                let text = format!("{c:?}");
+                for w in catalogue_strings(*i) {
+                    ensure_that!(text.contains(w), "C15 lens type missing in the serialisation", "{here}: component {name} works on `{w}` but its serialisation does not say so: {text}");
+                }
             }
             CNode::Seq(body) => match_structure(body, c, &here)?,
             CNode::While(ci, body) => {
@@ -835,15 +884,16 @@ fn canon(n: &CNode) -> String {
             let extra = match i % N_CATALOGUE {
                 20 => format!(" both={}", b % 2 == 0),
                 21 | 22 => format!(" both={}", a % 2 == 0),
+                34..=37 => format!(" on={:?}", catalogue_strings(*i)),
                 _ => String::new(),
             };
             format!("{name}{params:?}{extra}")
         }
         CNode::Seq(b) => format!("seq[{}]", b.iter().map(canon).collect::<Vec<_>>().join(",")),
         CNode::Scope(b) => format!("scope[{}]", b.iter().map(canon).collect::<Vec<_>>().join(",")),
-        CNode::While(c, b) => format!("while{:?}[{}]", (cond_catalogue(*c).0, cond_catalogue(*c).1), b.iter().map(canon).collect::<Vec<_>>().join(",")),
-        CNode::If(c, b) => format!("if{:?}[{}]", (cond_catalogue(*c).0, cond_catalogue(*c).1), b.iter().map(canon).collect::<Vec<_>>().join(",")),
-        CNode::IfElse(c, x, y) => format!("ifelse{:?}[{}][{}]", (cond_catalogue(*c).0, cond_catalogue(*c).1), x.iter().map(canon).collect::<Vec<_>>().join(","), y.iter().map(canon).collect::<Vec<_>>().join(",")),
+        CNode::While(c, b) => format!("while{:?}[{}]", (cond_catalogue(*c).0, cond_catalogue(*c).1, cond_strings(*c)), b.iter().map(canon).collect::<Vec<_>>().join(",")),
+        CNode::If(c, b) => format!("if{:?}[{}]", (cond_catalogue(*c).0, cond_catalogue(*c).1, cond_strings(*c)), b.iter().map(canon).collect::<Vec<_>>().join(",")),
+        CNode::IfElse(c, x, y) => format!("ifelse{:?}[{}][{}]", (cond_catalogue(*c).0, cond_catalogue(*c).1, cond_strings(*c)), x.iter().map(canon).collect::<Vec<_>>().join(","), y.iter().map(canon).collect::<Vec<_>>().join(",")),
     }
 }
 
@@ -1060,7 +1110,7 @@ fn tpl_oracle(c: &TplCase, cl: &mut u64) -> Result<(), Failure> {
 }
 
 pub fn run_all(ctx: &mut Ctx, replay: Option<&Path>) {
-    ctx.rule("log: case = (0-6 rules of trigger x extractor, logger placement {loop body, before+after the loop, twice per pass, inside a branch, inside a scope}, 0-12 iterations, which source states exist); triggers: always / never / every-n / scripted / change-of (at most one) / And-Or-Not of those; extractors: five harness lenses (two share a name), the iteration counter, evaluations, with_common, best objective value, a lens on a state that is never inserted. A reference model predicts the exact sequence of steps and entries; compared with the in-memory log (order preserving), the JSON export expanded through its name table, and the CBOR export; non-trivial = >= 3 steps with a duplicate name and a missing source. export: generated configuration trees over control flow and a catalogue of 34 shipped components / 4 conditions with numeric parameters: RON serialisation succeeds, the recorded serde structure has every component under its struct name with its parameter values in its nesting position, a structural or parameter edit changes the RON text, clone and rebuild give identical text; non-trivial = >= 6 nodes and depth >= 3. templates: all 21 with two parameter draws: to_ron writes the same text as the in-memory serialisation, different parameters / iteration bounds give different text; distinct by case");
+    ctx.rule("log: case = (0-6 rules of trigger x extractor, logger placement {loop body, before+after the loop, twice per pass, inside a branch, inside a scope}, 0-12 iterations, which source states exist); triggers: always / never / every-n / scripted / change-of (at most one) / And-Or-Not of those; extractors: five harness lenses (two share a name), the iteration counter, evaluations, with_common, best objective value (finite, or +inf for an infeasible best individual: null in JSON, inf in CBOR), a lens on a state that is never inserted. A reference model predicts the exact sequence of steps and entries; compared with the in-memory log (order preserving), the JSON export expanded through its name table, and the CBOR export; non-trivial = >= 3 steps with a duplicate name and a missing source. export: generated configuration trees over control flow and a catalogue of 38 shipped components (incl. the Linear / Polynomial mappings over lenses of generic state types: progress of the iteration counter vs. progress of the evaluation counter) / 4 conditions with numeric parameters: RON serialisation succeeds, the recorded serde structure has every component under its struct name with its parameter values and the state types its lenses read in its nesting position, a structural or parameter edit changes the RON text, clone and rebuild give identical text; non-trivial = >= 6 nodes and depth >= 3. templates: all 21 with two parameter draws: to_ron writes the same text as the in-memory serialisation, different parameters / iteration bounds give different text; distinct by case");
     ctx.assume("loggers are only placed in configurations that contain a loop (the iteration entry needs the counter)");
     ctx.assume("not part of the serialisation by documentation: Debug closures, Scope function pointers, identifier type parameters held in plain PhantomData");
     ctx.assume("at most one change-of trigger per log configuration (their `previous value` state is shared per value type)");
